@@ -43,6 +43,7 @@ RULE_TEXT = (
     'non-trivial = the one-at-a-time continuation completed and the '
     'optimised run executed or refused; distinct = ordered mutation-kind '
     'sequence + field kinds digest.')
+RULE_TEXT += ' 1 in 20 each: strict families "index_after_barrier" and "changemeta_twice" in which no known finding applies.'
 ASSUMPTIONS = [
     'both sides are the code under test: a defect common to both (e.g. the '
     'rebuild losing Meta indexes) cancels here by design (C01 reports it)',
@@ -142,13 +143,48 @@ def gen_index_after_barrier(rng):
     return {'v0': [part, item], 'rows': {'va_part': [{'id': 1, 'b': 1}],
                                          'va_item': [{'id': 1, 'a': 1}]},
             'muts': muts, 'cuts': cuts, 'hashseed': rng.choice([0, 1]),
-            'clean': True, 'family': 'index_after_barrier'}
+            'clean': True, 'family': 'strict_index_after_barrier'}
+
+
+def gen_changemeta_twice(rng):
+    """Two or three ChangeMeta of one Meta property of one model in one
+    batch: the optimiser keeps only one of them - it has to be the last."""
+    intf = lambda n: {'name': n, 'kind': 'Integer', 'attrs': {'null': True}}
+    item = {'name': 'Item', 'fields': [intf('a'), intf('b'), intf('c')],
+            'meta': {}}
+    prop = rng.choice(['indexes', 'indexes', 'index_together'])
+    if prop == 'indexes':
+        pool = [{'fields': ['a'], 'name': 'ix_a'},
+                {'fields': ['b'], 'name': 'ix_b'},
+                {'fields': ['c', 'a'], 'name': 'ix_ca'}]
+    else:
+        pool = [['a', 'b'], ['b', 'c'], ['c', 'a']]
+    values = []
+    for _ in range(rng.choice([2, 2, 3])):
+        v = rng.sample(pool, rng.choice([1, 2]))
+        if not values or v != values[-1]:
+            values.append(v)
+    if len(values) < 2:
+        values.append([pool[2]])
+    muts = [{'op': 'ChangeMeta', 'model': 'Item', 'prop': prop, 'value': v}
+            for v in values]
+    # (no column mutation in between: a rebuild between two Meta changes
+    # runs into the recorded rebuild / index bookkeeping findings)
+    n = len(muts)
+    k = rng.choice([1, 2, 3])
+    cuts = sorted(rng.sample(range(1, n), min(k - 1, n - 1)))
+    return {'v0': [item], 'rows': {'va_item': [{'id': 1, 'a': 1, 'b': 2,
+                                                'c': 3}]},
+            'muts': muts, 'cuts': cuts, 'hashseed': rng.choice([0, 1]),
+            'clean': True, 'family': 'strict_changemeta_twice'}
 
 
 def generate(seed, index, tier):
     rng = scenarios.derive_rng(seed, ID, index)
     if index % 20 == 19:
         return gen_index_after_barrier(rng)
+    if index % 20 == 9:
+        return gen_changemeta_twice(rng)
     return gen_scenario(rng)
 
 
@@ -394,7 +430,7 @@ def execute(scn):
     a, c = tw['a'], tw['c']
     detail = dict(ops=tags, ops_str=' '.join(tags),
                   clean=bool(scn.get('clean')),
-                  family=scn.get('family'), **features(scn))
+                  family=scn.get('family') or 'general', **features(scn))
     if not tw['b_ok']:
         stats['stepwise_not_valid'] = 1
         last = tw['b_runs'][-1]
